@@ -5,6 +5,7 @@ from ..values import is_variant, payload
 from .. import replay as rp
 from .setops import bits_for, fnr, decode_ab, prog_ab, built
 
+from ..validate import validation_group
 BOUNDS = {
     'quick': {'alternatives_per_operand': '1..2', 'hybrid_groups': 'identifiers abstract (any length), fields major/minor/patch full u64 <= MAX_SAFE_INTEGER for operand products < 4 alternatives, < 8 for larger products', 'identifier_list_len': 1, 'versions': 'rank mode: any total preorder on the bound/probe versions; concrete mode: u64 components <= MAX_SAFE_INTEGER'},
     'thorough': {'alternatives_per_operand': '1..3', 'identifier_list_len': 2, 'versions': 'same'},
@@ -27,6 +28,7 @@ def groups(tier):
             gs.append({'name': 'pre-hybrid-%dx%d' % (ka, kb), 'fn': pre_group, 'args': {'ka': ka, 'kb': kb, 'L': 1, 'hybrid': True}})
     if tier != 'quick':
         gs.append({'name': 'pre-concrete-1x1', 'fn': pre_group, 'args': {'ka': 1, 'kb': 1, 'L': 2, 'hybrid': False}})
+    gs.append(validation_group(('intersect', 'satisfies'), tier))
     return gs
 
 
